@@ -114,6 +114,7 @@ structure MState where
   dueFull : List (Nat × String) := []    -- peers that are due a full wantlist, and why (refresh expired / connection closed mid-send)
   conns : List (Nat × List Nat) := []    -- per peer: the connections the swarm has reported established and not yet closed
   newGets : List (Nat × Nat) := []       -- (query, cid) of the gets since the last poll
+  outstanding : List (Nat × Nat) := []   -- (peer, connection): handed a wantlist whose outcome (Ready / Failed from that connection, or its close) is not known yet
 
 def rm (l ks : List Nat) : List Nat := l.filter (· ∉ ks)
 def add (l ks : List Nat) : List Nat := l ++ ks.filter (· ∉ l)
@@ -343,6 +344,7 @@ def stepMon (st : MState) (op : String) (out : String) : MState × List Viol :=
         | ["closed", p, _c, rem] =>
           let p := p.toNat?.getD 0
           let st := markClosedMidSend st prev snap p (_c.toNat?.getD 0)
+          let st := { st with outstanding := st.outstanding.filter (· != (p, _c.toNat?.getD 0)) }
           let st := { st with conns := if rem == "0" then st.conns.filter (·.1 != p)
                                        else st.conns.map (fun e => if e.1 == p then (p, rm e.2 [_c.toNat?.getD 0]) else e) }
           let st := if rem == "0" then { st with refWl := st.refWl.filter (·.1 != p), owed := st.owed.filter (·.1 != p) } else st
@@ -359,16 +361,20 @@ def stepMon (st : MState) (op : String) (out : String) : MState × List Viol :=
           let p := p.toNat?.getD 0
           let c := c.toNat?.getD 0
           let st := markClosedMidSend st prev snap p c
+          let st := { st with outstanding := st.outstanding.filter (· != (p, c)) }
           match lookup prev.peers p, lookup snap.peers p with
           | some a, none =>
             (st, if a.conns.all (· == c) then []
                  else [("C15", s!"peer {p} discarded when connection {c} was closing although its connections {a.conns} remained")])
           | _, _ => (st, [])
         | ["tick", ms] => ({ st with now := st.now + ms.toNat?.getD 0 }, [])
-        | ["sending", p, _src, "ready"] =>
-          -- the transmission was reported complete after all (a report the real handler cannot send once
-          -- it is closing, but the node stream feeds arbitrary reports): nothing was lost
+        | ["sending", p, src, st'] =>
+          -- C14: a `Ready` or `Failed` report from a connection is the outcome of the wantlist it was handed
           let p := p.toNat?.getD 0
+          let src := src.toNat?.getD 0
+          let known := st' == "ready" || st'.startsWith "failed"
+          let st := if known then { st with outstanding := st.outstanding.filter (· != (p, src)) } else st
+          if st' != "ready" then (st, []) else
           match lookup snap.peers p with
           | some ps =>
             if ps.sending == "ready" then
@@ -471,6 +477,12 @@ def stepMon (st : MState) (op : String) (out : String) : MState × List Viol :=
                | none => [("C15", s!"wantlist handed to peer {e.p} which has no session")])
             | _, _ => [("C15", s!"wantlist handed to peer {e.p} which has no session")]
           let vdup := if (sends.map (·.p)).eraseDups.length != sends.length then [("C15", "two wantlists to one peer in one drain")] else []
+          -- C14: a connection is given a new wantlist only after the outcome of the previous one is known
+          let vout := sends.filterMap fun e =>
+            if st.outstanding.contains (e.p, e.c) then
+              some ("C14", s!"connection {e.c} of peer {e.p} is handed a new wantlist although the outcome of the previous one handed to it is not known (no Ready / Failed report from it, not closed): it was given up after the acknowledgement timeout and is in use again")
+            else none
+          let st := { st with outstanding := st.outstanding ++ (sends.filter fun (e : SendEv) => !st.outstanding.contains (e.p, e.c)).map fun (e : SendEv) => (e.p, e.c) }
           let gs := st.ghosts.map fun (p, g) =>
             match sends.find? (·.p == p) with
             | none => (p, g)
@@ -512,7 +524,7 @@ def stepMon (st : MState) (op : String) (out : String) : MState × List Viol :=
             else none
           ({ st with events := events, calls := calls ++ st.calls, puts := puts ++ st.puts, ghosts := gs, refWl := refWl,
                      owed := if snap.stasks == 0 then [] else owed, stored := [], newGets := [] },
-           v03 ++ v01 ++ vsend ++ vdup ++ v07 ++ v06 ++ vowed ++ vstored ++ vlive ++ vresp ++ vdue ++ vdue15 ++ vget)
+           v03 ++ v01 ++ vsend ++ vdup ++ vout ++ v07 ++ v06 ++ vowed ++ vstored ++ vlive ++ vresp ++ vdue ++ vdue15 ++ vget)
         | _ => (st, [])
       let st := { st with prev := snap }
       (st, v ++ checkState st snap)
